@@ -228,10 +228,11 @@ def shards(tier, seed):
     out.append(("sameobject",))
     out += [("extorder",) + o for n in (2, 3) for o in itertools.product(("asgi", "zerocopy"), repeat=n)]
     out += [("options", iface) for iface in ("wsgi", "asgi", "zerocopy")]
+    out.append(("versions",))
     return out
 
 
-PAIR_REQS = [[], [("Range", "bytes=1-6")], [("Range", "bytes=0-1,5-8")], [("Range", "bytes=-3")]]
+PAIR_REQS = [[], [("Range", "bytes=1-6")], [("Range", "bytes=0-1,5-8")], [("Range", "bytes=-3")], [("Range", "bytes=-2,3-3,0-0")]]
 
 
 def run_pairs(r, iface):
@@ -369,7 +370,27 @@ def run_shard(desc, tier):
     if desc[0] == "extorder":
         from ..core import fresh
         return fresh.call(__name__, desc, tier)
+    if desc[0] == "versions":
+        # versions of one file that differ in the sub-second part of the modification time only (same size, same inode, same
+        # whole second): what a response announces for a version (ETag, Last-Modified) and which If-Range values it honours must
+        # be a function of that version - the same in every order in which a process gets to see the versions. Each order runs in
+        # an interpreter that has served nothing yet.
+        from ..core import fresh
+        seen = {}
+        for order in itertools.permutations(range(len(VERSION_NS))):
+            rr = fresh.call(__name__, ("versions-run",) + order, tier)
+            r.merge(rr)
+            for v, iface, obs in rr.sets.get("version-obs", ()):
+                first = seen.setdefault((v, iface), (order, obs))
+                if first[1] != obs:
+                    r.violation(f"versions:{iface}", {"versions": list(order), "other": list(first[0]), "version": v, "iface": iface},
+                                f"{iface}: version {v} of a file (mtime ...{VERSION_NS[v]} ns) answers {obs!r:.300} when a process sees the versions in order {list(order)} but {first[1]!r:.300} in order {list(first[0])}")
+        r.sample({"versions": [f"mtime 1700000000 s + {ns} ns" for ns in VERSION_NS], "orders": "all 6, each in a fresh interpreter"})
+        return r
     return run_shard_fresh(desc, tier)
+
+
+VERSION_NS = [100_000_000, 600_000_000, 600_000_512]
 
 
 def run_options(r, iface0):
@@ -456,6 +477,37 @@ def run_shard_fresh(desc, tier):
         finally:
             t.close()
         return r
+    if desc[0] == "versions-run":
+        t = Tree()
+        try:
+            path = os.path.join(t.dir, "versions.bin")
+            prev = None
+            for step, v in enumerate(desc[1:]):
+                data = bytes((i * 3 + v) % 251 for i in range(12))
+                with open(path, "wb") as f:
+                    f.write(data)
+                os.utime(path, ns=(1_700_000_000 * 10**9 + VERSION_NS[v], 1_700_000_000 * 10**9 + VERSION_NS[v]))
+                for iface in ("wsgi", "asgi", "zerocopy"):
+                    base = call(iface, path, 4, "GET", [])
+                    et, lm = base.header("etag"), base.header("last-modified")
+                    obs = [("etag", et), ("last-modified", lm)]
+                    for kind, text in judge(base, None, 12, None, True, "GET", data):
+                        r.violation(f"versions-run:{kind}:{iface}", {"versions": list(desc[1:]), "step": step, "iface": iface}, f"{iface} version {v} at step {step}: {text}")
+                    for ifr in [et, prev and prev[iface]]:
+                        if ifr is None:
+                            continue
+                        for method in ("GET", "HEAD"):
+                            res = call(iface, path, 4, method, [("Range", "bytes=2-5"), ("If-Range", ifr)])
+                            r.count("evaluations")
+                            r.count("distinct_nontrivial")
+                            for kind, text in judge(res, None, 12, [("fl", 2, 5)], ifr == et, method, data):
+                                r.violation(f"versions-run:{kind}:{iface}", {"versions": list(desc[1:]), "step": step, "iface": iface, "if_range": ifr},
+                                            f"{iface} {method} version {v} at step {step} of {list(desc[1:])}, Range bytes=2-5, If-Range {ifr!r} (announced ETag {et!r}): {text}")
+                    r.add("version-obs", (v, iface, tuple(obs)))
+                prev = {iface: call(iface, path, 4, "GET", []).header("etag") for iface in ("wsgi", "asgi", "zerocopy")}
+        finally:
+            t.close()
+        return r
     if desc[0] == "defaultchunk":
         # file sizes and range ends around the default chunk size (4096 * 64) with the default chunk size
         D = 4096 * 64
@@ -537,6 +589,9 @@ def replay(w):
     if "extorder" in w:
         rr = run_shard(("extorder",) + tuple(w["extorder"]), "quick")
         return bool(rr.viol), {"violations": sorted(rr.viol)}
+    if "versions" in w:
+        rr = run_shard(("versions",), "quick")
+        return bool(rr.viol), {"violations": sorted(rr.viol), "texts": [v[2][:300] for v in rr.viol.values()]}
     if "sameobject" in w:
         rr = run_shard(("sameobject",), "quick")
         return bool(rr.viol), {"violations": sorted(rr.viol), "texts": [v[2][:300] for v in rr.viol.values()]}
